@@ -801,4 +801,162 @@ mut(
     '                {"typ": typ} if val is None else dict(typ=typ, annotated=True, **val)\n',
 )
 
+# ------------------------------------------------------------------------------ C16
+OU = "cdd/compound/openapi/utils/emit_openapi_utils.py"
+mut(
+    "c16-request-body-flag-never-set",
+    "C16",
+    "C16.refs",
+    OU,
+    "        _request_body: bool = True\n",
+    "",
+    mention=["requestBodies"],
+)
+mut(
+    "c16-body-key-template-differs",
+    "C16",
+    "C16.refs",
+    OU,
+    '        components["requestBodies"]["{name}Body".format(name=name)] = {',
+    '        components["requestBodies"]["{name}_body".format(name=name)] = {',
+)
+mut(
+    "c16-server-error-not-defined",
+    "C16",
+    "C16.refs",
+    "cdd/compound/openapi/emit.py",
+    '            "ServerError": {',
+    '            "Error": {',
+    mention=["ServerError"],
+)
+mut(
+    "c16-delete-on-collection",
+    "C16",
+    "C16.crud",
+    OU,
+    '            paths[_route]["delete"] = {',
+    '            paths[route]["delete"] = {',
+)
+mut(
+    "c16-read-template-on-collection",
+    "C16",
+    "C16.crud",
+    "cdd/routes/emit/bottle_constants_utils.py",
+    '@{app}.get("{route}/:{id}")',
+    '@{app}.get("{route}")',
+)
+mut(
+    "c16-path-param-name-constant",
+    "C16",
+    "C16.params",
+    OU,
+    '                    "name": _id,\n',
+    '                    "name": "id",\n',
+)
+mut(
+    "c16-schema-store-only-on-create",
+    "C16",
+    "C16.refs",
+    OU,
+    """    components["schemas"][name] = {
+        k: v for k, v in model.items() if not k.startswith("$")
+    }
+    if _request_body:""",
+    """    if _request_body:
+        components["schemas"][name] = {
+            k: v for k, v in model.items() if not k.startswith("$")
+        }
+    if _request_body:""",
+)
+# ------------------------------------------------------------------------------ C05
+SE = "cdd/sqlalchemy/emit.py"
+SEU = "cdd/sqlalchemy/utils/emit_utils.py"
+mut(
+    "c05-table-site-skips-pk",
+    "C05",
+    "C05.pk",
+    SE,
+    """                            cdd.sqlalchemy.utils.emit_utils.ensure_has_primary_key(
+                                intermediate_repr["params"], force_pk_id
+                            ).items(),
+                        ),
+                    )
+                )
+            ),
+            keywords=list(""",
+    """                            intermediate_repr["params"].items(),
+                        ),
+                    )
+                )
+            ),
+            keywords=list(""",
+)
+mut(
+    "c05-pk-store-outside-absence-test",
+    "C05",
+    "C05.pk",
+    SEU,
+    """    if not any(
+        filter(
+            rpartial(str.startswith, "[PK]"),
+            map(
+                methodcaller("get", "doc", ""),
+                params.values(),
+            ),
+        )
+    ):
+        candidate_pks: List[str] = []""",
+    """    if force_pk_id and "id" in params:
+        params["id"]["doc"] = "[PK] {}".format(params["id"].get("doc", ""))
+    if not any(
+        filter(
+            rpartial(str.startswith, "[PK]"),
+            map(
+                methodcaller("get", "doc", ""),
+                params.values(),
+            ),
+        )
+    ):
+        candidate_pks: List[str] = []""",
+)
+mut(
+    "c05-float-parsed-as-number",
+    "C05",
+    "C05.tables",
+    "cdd/sqlalchemy/utils/parse_utils.py",
+    '    "Float": "float",\n',
+    '    "Float": "number",\n',
+)
+mut(
+    "c05-hybrid-own-parser",
+    "C05",
+    "C05.funnel",
+    "cdd/sqlalchemy/parse.py",
+    """    return sqlalchemy(
+        class_def=class_def, parse_original_whitespace=parse_original_whitespace
+    )""",
+    """    return cdd.class_.parse.class_(
+        class_def, parse_original_whitespace=parse_original_whitespace
+    )""",
+)
+mut(
+    "c05-emitter-writes-index",
+    "C05",
+    "C05.vocab",
+    SEU,
+    """    if isinstance(nullable, bool):
+        keywords.append(
+            ast.keyword(
+                arg="nullable",""",
+    """    if _param.get("doc", "").startswith("[PK]"):
+        keywords.append(
+            ast.keyword(arg="index", value=cdd.shared.ast_utils.set_value(True), identifier=None)
+        )
+    if isinstance(nullable, bool):
+        keywords.append(
+            ast.keyword(
+                arg="nullable",""",
+    mention=["index"],
+)
+
 MUTANTS = M
